@@ -129,7 +129,11 @@ def handleApply (id : String) (args : List String) : String :=
                  | some want => if want = out then .ok else .viol "indent-law"
                  | none => .viol "indent-law")
               | _ => .unspec
-          a.and b
+          -- "an independent parser reads back the intended value": the specification's value
+          let c : Verdict := match v01 with
+            | .viol "value" => .viol "reads-back-as-different-value"
+            | _ => .ok
+          (a.and b).and c
         | _ => .unspec
       reply id corr (showObs model)
         [("C01", v01), ("C04", v04), ("C05", v05), ("C08", v08), ("C09", v09), ("C12", v12), ("C13", v13), ("C14", v14), ("C15", v15)]
@@ -293,7 +297,10 @@ def handleMerge (id : String) (args : List String) : String :=
       let m := obsOf (Impl.mergePatch doc patch)
       let mutated := (findTag "mut=" rest) = some "1"
       let v15 : Verdict := match obs with
-        | .ok out => c15out false (isValidUtf8 doc && isValidUtf8 patch) out
+        | .ok out =>
+          -- … "that an independent parser reads back as the intended value" (the RFC 7396 result)
+          (c15out false (isValidUtf8 doc && isValidUtf8 patch) out).and
+            (match c02 doc patch obs with | .viol _ => .viol "reads-back-as-different-value" | _ => .ok)
         | _ => .unspec
       reply id (sameObsModOrder doc m obs) (showObs m)
         [("C02", c02 doc patch obs), ("C05", c05merge doc patch obs), ("C15", v15),
